@@ -20,6 +20,12 @@ def search(ctx):
 def run(ctx):
     ctx.prove()
     st = ctx.correspond("h_store", "Store", args=("c09",), tag="c09", nontrivial=NONTRIVIAL)
+    # datastore ERRORS inside Put (the k-th write fails, the handle lives on): taken from the crash-point
+    # enumeration of the store harness, which forks the store at every write of every Put — the handle must still
+    # show the state before the Put and the Put must be repeatable (C09-failed-put-changed-state / -not-repeatable)
+    ctx.correspond("h_store", "Store", args=("c10",), tag="c09-ioerr", nontrivial=r"^obs tag=io",
+                   env={"VERIF_STORE_CRASH": "1200" if ctx.tier == "thorough" else "150"},
+                   oracle_filter=r"C09-", diff_filter=r":: (obs tag=io|put )")
     if ctx.tier == "thorough":
         for d in (1, 2):
             ctx.correspond("h_store", "Store", args=("c09",), tag="c09-s%d" % d, seed=ctx.seed + 7919 * d,
